@@ -268,3 +268,168 @@ Theorem C05_ex_readd :
 Proof. exact (@ex_readd). Qed.
 Print Assumptions C05_ex_readd.
 
+Require Import WnV.Proofs.AddContent WnV.Proofs.AddRemove.
+
+(* ---- add followed by remove of what was added restores the database: every content table (20 tables, tables_partition) is exactly what it was, including the dependency links of other lexicons; only the shared lookup tables (relation_types, ilis, ili_statuses, lexfiles) keep what the add put there; afterwards every hypothesis holds again and the lexicon is offered for adding again.  [Wfb] = rowids unique and NOT NULL/CHECK constraints hold; [deps_ok] = resolved dependency links point to the lexicon they name; [in_synsets_ok] is needed (witness ex_proposed_survives) *)
+Theorem C05_add_then_remove_restores :
+  forall (d : db) (r : val) (nt : normtable) (d' d'' : db) (L : val) (i v : str),
+         vreq r "lexicons" = Ok (VList [L]) ->
+         vreq L "id" = Ok (VStr i) ->
+         vreq L "version" = Ok (VStr v) ->
+         vtruthy (vgetk L "extends") = false ->
+         is_null (LEXICON_QUERY d (CText i) (CText v)) = true ->
+         let spec := (i ++ [c_colon] ++ v)%list in
+         spec_plain spec = true ->
+         split_ws spec = [spec] ->
+         spec_unused d spec = true ->
+         fk_ok d = true ->
+         Wfb d = true ->
+         deps_ok d = true ->
+         in_synsets_ok L = true ->
+         add_lexical_resource d r nt = Ok d' ->
+         remove d' spec = Ok d'' ->
+         (forall t : string, In t content_tables -> get_table d'' t = get_table d t) /\
+         (forall t : string,
+          In t lookup_tables ->
+          get_table d'' t = get_table d' t /\
+          (exists X : list row, get_table d' t = (get_table d t ++ X)%list)).
+Proof. exact (@add_then_remove_restores). Qed.
+Print Assumptions C05_add_then_remove_restores.
+
+Theorem C05_add_one_then_delete :
+  forall (nt : normtable) (L : val) (d d' d'' : db) (idc vc : cell),
+         add_one_lexicon nt L d = Ok d' ->
+         vtruthy (vgetk L "extends") = false ->
+         fk_ok d = true ->
+         Wf d ->
+         deps_ok d = true ->
+         in_synsets_ok L = true ->
+         preq L "id" = Ok idc ->
+         preq L "version" = Ok vc ->
+         is_null (LEXICON_QUERY d idc vc) = true ->
+         delete_row delete_fuel d' "lexicons" (next_rowid (get_table d "lexicons")) = Ok d'' ->
+         (forall t : string, In t content_tables -> get_table d'' t = get_table d t) /\
+         (forall t : string,
+          In t lookup_tables ->
+          get_table d'' t = get_table d' t /\
+          (exists X : list row, get_table d' t = (get_table d t ++ X)%list)).
+Proof. exact (@add_one_then_delete). Qed.
+Print Assumptions C05_add_one_then_delete.
+
+Theorem C05_cycle_preserves_hypotheses :
+  forall (d : db) (r : val) (nt : normtable) (d' d'' : db) (L : val) (i v : str),
+         vreq r "lexicons" = Ok (VList [L]) ->
+         vreq L "id" = Ok (VStr i) ->
+         vreq L "version" = Ok (VStr v) ->
+         vtruthy (vgetk L "extends") = false ->
+         is_null (LEXICON_QUERY d (CText i) (CText v)) = true ->
+         let spec := (i ++ [c_colon] ++ v)%list in
+         spec_plain spec = true ->
+         split_ws spec = [spec] ->
+         spec_unused d spec = true ->
+         fk_ok d = true ->
+         Wfb d = true ->
+         deps_ok d = true ->
+         in_synsets_ok L = true ->
+         add_lexical_resource d r nt = Ok d' ->
+         remove d' spec = Ok d'' ->
+         is_null (LEXICON_QUERY d'' (CText i) (CText v)) = true /\
+         spec_unused d'' spec = true /\
+         fk_ok d'' = true /\
+         deps_ok d'' = true /\
+         Wf d'' /\
+         (exists skipmap : skipmap_t, _precheck [L] d'' = Ok skipmap /\ not_skipped skipmap L = true).
+Proof. exact (@cycle_preserves_hypotheses). Qed.
+Print Assumptions C05_cycle_preserves_hypotheses.
+
+Theorem C05_tables_partition :
+  map (fun e : string * columns_t * fkeys_t * uniques_t => fst (fst (fst e))) schema =
+         ["ilis"; "proposed_ilis"; "lexicons"; "lexicon_dependencies"; "lexicon_extensions";
+          "entries"; "forms"; "pronunciations"; "tags"; "synsets"; "synset_relations"; "definitions";
+          "synset_examples"; "senses"; "sense_relations"; "sense_synset_relations"; "adjpositions";
+          "sense_examples"; "counts"; "syntactic_behaviours"; "syntactic_behaviour_senses";
+          "relation_types"; "ili_statuses"; "lexfiles"].
+Proof. exact (@tables_partition). Qed.
+Print Assumptions C05_tables_partition.
+
+Theorem C05_ex_hypotheses :
+  fk_ok ex_db2 = true /\
+         Wfb ex_db2 = true /\
+         deps_ok ex_db2 = true /\
+         in_synsets_ok ex_cc = true /\
+         spec_plain (k "cc:1") = true /\
+         split_ws (k "cc:1") = [k "cc:1"] /\
+         spec_unused ex_db2 (k "cc:1") = true /\
+         is_null (LEXICON_QUERY ex_db2 (CText (k "cc")) (CText (k "1"))) = true.
+Proof. exact (@ex_hypotheses). Qed.
+Print Assumptions C05_ex_hypotheses.
+
+Theorem C05_ex_add_remove :
+  match add_lexical_resource ex_db2 (ex_resource [ex_cc]) [] with
+         | Ok d' =>
+             match remove d' (k "cc:1") with
+             | Ok d'' =>
+                 forallb
+                   (fun t : string =>
+                    sx_eqb (sx_of_db [(tn t, get_table d'' t)])
+                      (sx_of_db [(tn t, get_table ex_db2 t)])) content_tables = true /\
+                 Datatypes.length (get_table d' "senses") = 3%nat
+             | _ => False
+             end
+         | _ => False
+         end.
+Proof. exact (@ex_add_remove). Qed.
+Print Assumptions C05_ex_add_remove.
+
+Theorem C05_ex_readd_after_remove :
+  match add_lexical_resource ex_db2 (ex_resource [ex_cc]) [] with
+         | Ok d' =>
+             match remove d' (k "cc:1") with
+             | Ok d'' =>
+                 match add_lexical_resource d'' (ex_resource [ex_cc]) [] with
+                 | Ok d3 =>
+                     forallb
+                       (fun t : string =>
+                        sx_eqb (sx_of_db [(tn t, get_table d3 t)])
+                          (sx_of_db [(tn t, get_table d' t)])) (content_tables ++ lookup_tables) =
+                     true
+                 | _ => False
+                 end
+             | _ => False
+             end
+         | _ => False
+         end.
+Proof. exact (@ex_readd_after_remove). Qed.
+Print Assumptions C05_ex_readd_after_remove.
+
+(* ---- what is NOT restored, as theorems about the faithful model: a proposed ILI whose synset id is not a string survives (pathological), and tags/pronunciations an extension attached to base forms survive the removal of the extension (finding F3: these tables have no owner column and hang below forms only) *)
+Theorem C05_ex_proposed_survives :
+  in_synsets_ok ex_bad = false /\
+         match add_lexical_resource ex_db2 (ex_resource [ex_bad]) [] with
+         | Ok d' =>
+             match remove d' (k "zz:1") with
+             | Ok d'' =>
+                 get_table ex_db2 "proposed_ilis" = [] /\
+                 get_table d'' "proposed_ilis" = [[CInt 1; CNull; CNull; CNull]]
+             | _ => False
+             end
+         | _ => False
+         end.
+Proof. exact (@ex_proposed_survives). Qed.
+Print Assumptions C05_ex_proposed_survives.
+
+Theorem C05_ex_extension_leaks_tags :
+  match add_lexical_resource ex_db2 (ex_resource [ex_ext]) [] with
+         | Ok d' =>
+             match remove d' (k "xa:1") with
+             | Ok d'' =>
+                 get_table ex_db2 "tags" = [] /\
+                 get_table d'' "tags" = [[CInt 1; CInt 1; CText (k "sg"); CText (k "number")]] /\
+                 map rowid_of (get_table d'' "lexicons") = map rowid_of (get_table ex_db2 "lexicons")
+             | _ => False
+             end
+         | _ => False
+         end.
+Proof. exact (@ex_extension_leaks_tags). Qed.
+Print Assumptions C05_ex_extension_leaks_tags.
+
